@@ -68,7 +68,12 @@ pub fn arb_case(p: TreeParams) -> BoxedStrategy<Case> {
                 .into_iter()
                 .map(|(s, m, e, bad)| {
                     if bad && m % 5 == 0 {
-                        Bytes(vec![0xff, 0xfe, b'a'])
+                        // an ill-formed probe; when a key or element holds U+FFFD, the probe is that
+                        // string with the replacement character turned back into a stray byte
+                        match strs.iter().find(|x| x.contains('\u{fffd}')) {
+                            Some(x) => Bytes(x.replace('\u{fffd}', "\u{0}").into_bytes().into_iter().map(|b| if b == 0 { 0xFF } else { b }).collect()),
+                            None => Bytes(vec![0xff, 0xfe, b'a']),
+                        }
                     } else {
                         Bytes(derive_name(&strs, s, m, &e).into_bytes())
                     }
@@ -394,6 +399,6 @@ pub fn check(c: &Case, obs: &mut Obs) -> Result<(), String> {
 
 fn run(ctx: &mut Ctx) {
     let cases = ctx.share(ctx.tier.pick(400_000, 4_000_000));
-    let p = ctx.tier.pick(TreeParams::quick(), TreeParams::thorough()).with_big(2);
+    let p = ctx.tier.pick(TreeParams::quick(), TreeParams::thorough()).with_big(3);
     run_strategy(ctx, "C05", "accessors", cases, arb_case(p), check);
 }
